@@ -46,6 +46,13 @@ func makeDepGraph(program Program) depGraph {
 		s := rule.Head.Predicate
 		dep.initNode(s)
 		for _, premise := range rule.Premises {
+			// A mention inside a temporally annotated literal counts like any other.
+			switch t := premise.(type) {
+			case ast.TemporalLiteral:
+				premise = t.Literal
+			case ast.TemporalAtom:
+				premise = t.Atom
+			}
 			switch p := premise.(type) {
 			case ast.Atom:
 				if _, ok := builtin.Predicates[p.Predicate]; ok {
